@@ -17,6 +17,45 @@ CHECKS = {
             "trusts CrossHair's path exploration (cross-checked: number of path classes == independent count of the bounded space; "
             "every path re-executed natively), z3, the independent decoder in harness/pairing_lib.py; sequence letters concrete",
             "CrossHair symbolic execution (z3) of the real code, partitioned; captured MILP -> z3 LIA", "5/C01"),
+    "C02": ("E1+E3", MC,
+            "for every pairing table up to N positions (CrossHair) and every member of the inflated / padded / interleaved families (z3 AllSAT) the "
+            "MILP built by the real code is captured, all its optimal solutions are enumerated by z3 and returned through the solver stub so that "
+            "the real read-back and bracket filling run on each; the deciding verdict per resulting notation is the z3 query 'a proper assignment "
+            "over 30 levels with a larger objective exists' = unsat; also run with the real default solver",
+            "trusts z3 (Optimize + LIA), CrossHair's exploration (path-class count cross-checked), the reference conflict/stem definitions in "
+            "harness/pairing_lib.py; assumes an external solver returns an optimum of the LP it is given",
+            "captured MILP -> z3: enumerate all optima, unsat optimality query; CrossHair / z3 AllSAT outer exploration", "5/C02"),
+    "C07": ("E1", MC,
+            "CrossHair executes the real BpSeq.elements for every pairing table up to N positions (plus AllSAT-enumerated families) and an "
+            "independent oracle re-derives stems, hairpins, loop closure, coverage of unpaired nucleotides and strand texts",
+            "trusts CrossHair's exploration (count cross-checked, native re-execution), the oracle in harness/c07.py; the object's optimal "
+            "dot-bracket is computed natively and injected (pulp cannot be traced)",
+            "CrossHair symbolic execution of the real code, partitioned; z3 AllSAT families", "5/C07"),
+    "C12": ("E1", MC,
+            "one-operation inductive step: for every pairing table in the bound and each of the nine public operations, from a fresh object: "
+            "answer == oracle, receiver unchanged, every later answer == fresh object's answer, operations on the returned structure do not reach "
+            "back; CrossHair-traced for N<=6/7, z3-AllSAT + native for larger N; explicit histories of bounded length as a cross-check of the argument",
+            "trusts the invariant argument (warm object answers like a cold one => histories of any length), CrossHair, z3 AllSAT",
+            "CrossHair symbolic execution of one inductive step; z3 AllSAT enumeration for larger bounds", "5/C12"),
+    "C13": ("E3", "fault_enumeration",
+            "the space pairing table (N<=6/8) x entry point x solver configuration {HiGHS, default, none} x behaviour {raise, 4 non-optimal statuses, "
+            "ok} x second call on the same object is one z3 formula, enumerated completely by AllSAT; each case runs the real code with the solver "
+            "environment stubbed and is judged by independent oracles (lossless, == FCFS reference on fault, z3 optimality query when solved)",
+            "trusts z3 AllSAT (count cross-checked), the stubs' fidelity to pulp's solver interface (PulpSolverError / status codes)",
+            "z3 AllSAT enumeration of the fault space; native execution with solver stubs; z3 optimality query", "5/C13"),
+    "C14": ("E1", MC,
+            "set iteration order is a symbolic schedule: set/frozenset in rnapolis.common are replaced by a stand-in whose order for "
+            "hash-randomised elements is any permutation chosen by symbolic ints; CrossHair explores pairing tables x schedules and every output "
+            "must equal the real interpreter's; counterexamples are replayed with PYTHONHASHSEED 0..31 in fresh interpreters. Partial: "
+            "secondary-structure outputs of rnapolis.common only",
+            "assumes int/tuple-of-int sets iterate independently of the hash seed; annotator/parser/serialiser outputs are outside",
+            "CrossHair symbolic execution with hash order as symbolic schedule", "5/C14"),
+    "C16": ("E1+E3", MC,
+            "for every pairing table up to N positions (CrossHair) and the AllSAT families, the real all_dot_brackets list is compared with the "
+            "Grundy specification by z3: each member satisfies spec (sat under its assignment), and the completeness query 'spec(a) and a differs "
+            "from every member' is unsat; plus no repetition, optimal and FCFS notations are members, knot-free => single round string",
+            "trusts z3 LIA, CrossHair's exploration, the reading of 'greedy-stable' as the Grundy condition",
+            "CrossHair outer exploration; z3 unsat completeness query over level assignments", "5/C16"),
 }
 
 NOT_APPLICABLE = {
